@@ -245,6 +245,7 @@ UNOPS = {'Not','Neg','PtrMetadata'}
 def parse_rvalue(s):
     s = s.strip()
     if s.startswith('no_retag '): s = s[9:]
+    if s.startswith('&/*tls*/ '): return Rvalue('tls', (), s[9:])
     if s.startswith('&raw const (fake) '): return Rvalue('ref', (parse_place(s[18:]),), 'raw')
     if s.startswith('&raw const '): return Rvalue('ref', (parse_place(s[11:]),), 'raw')
     if s.startswith('&raw mut '): return Rvalue('ref', (parse_place(s[9:]),), 'rawmut')
